@@ -9,7 +9,7 @@ WTS=(C11 C12 C13 C14 C15 C16 C17 C18 C19 C20)
 ALL=(C01 C02 C03 C04 C05 C06 C07 C08 C09 C10 C11 C12 C13 C14 C15 C16 C17 C18 C19 C20)
 worker() {
   i=$1; wt=$ROOT/${WTS[$i]}
-  for ((j=i; j<20; j+=10)); do P=${ALL[$j]}
+  for ((j=i; j<20; j+=NW)); do P=${ALL[$j]}
     for n in 1 2 3 4; do
       d=$ROOT/$P-out/change$n.diff; [ -f $d ] || continue
       git -C $wt checkout -q -- . ; git -C $wt clean -fdq
@@ -22,6 +22,7 @@ worker() {
     done
   done
 }
-for i in 0 1 2 3 4 5 6 7 8 9; do worker $i & done
+NW=${WORKERS:-7}   # each analysis needs 3-6 GB
+for ((i=0; i<NW; i++)); do worker $i & done
 wait
 echo ALL-DONE
